@@ -51,6 +51,7 @@ The full data structure is
 
 """
 
+import itertools
 import random
 from pprint import pprint
 
@@ -100,21 +101,24 @@ class LazyCall:
             and self.batch_size in self.cached_batch
         ):
             for i, j in zip(
-                self.cached_batch[self.batch_size],
-                split_generator(self.extra, self.batch_size),
+                self.cached_batch[self.batch_size], self._split_extra()
             ):
                 yield {**i, **j}
         elif isinstance(self.x, LazyCall):
-            for i, j in zip(
-                self.x, split_generator(self.extra, self.batch_size)
-            ):
+            for i, j in zip(self.x, self._split_extra()):
                 yield {**self.f(i, *self.args, **self.kwargs), **j}
         else:
             for i, j in zip(
                 split_generator(self.x, self.batch_size),
-                split_generator(self.extra, self.batch_size),
+                self._split_extra(),
             ):
                 yield {**self.f(i, *self.args, **self.kwargs), **j}
+
+    def _split_extra(self):
+        """batches of ``extra``; without any array in it, it does not limit the number of batches"""
+        if len(data_shape(self.extra, all_list=True)) == 0:
+            return itertools.repeat(self.extra)
+        return split_generator(self.extra, self.batch_size)
 
     def as_dataset(self, batch=65000):
         self.batch_size = batch
@@ -405,11 +409,19 @@ def data_generator(data, fun=_data_split, args=(), kwargs=None, MAX_ITER=1000):
     """Data generator: call ``fun`` to each ``data`` as a generator. The extra arguments will be passed to ``fun``."""
     kwargs = kwargs if kwargs is not None else {}
 
-    def _gen(dat):
+    def _no_array(dat):
         if isinstance(dat, dict):
-            if not dat:
-                for i in range(MAX_ITER):
-                    yield {}
+            return all(_no_array(v) for v in dat.values())
+        if isinstance(dat, (list, tuple)):
+            return all(_no_array(v) for v in dat)
+        return False
+
+    def _gen(dat):
+        if _no_array(dat):
+            # no array inside: the same structure in every batch, as many as the other branches need
+            while True:
+                yield data_map(dat, lambda x: x)
+        elif isinstance(dat, dict):
             ks, vs = [], []
             for k, v in dat.items():
                 ks.append(k)
@@ -417,9 +429,6 @@ def data_generator(data, fun=_data_split, args=(), kwargs=None, MAX_ITER=1000):
             for s_data in zip(*vs):
                 yield type(dat)(zip(ks, s_data))
         elif isinstance(dat, list):
-            if not dat:
-                for i in range(MAX_ITER):
-                    yield []
             vs = []
             for v in dat:
                 vs.append(_gen(v))
@@ -435,6 +444,9 @@ def data_generator(data, fun=_data_split, args=(), kwargs=None, MAX_ITER=1000):
             for i in fun(dat, *args, **kwargs):
                 yield i
 
+    if _no_array(data):
+        # nothing bounds the iteration
+        return itertools.islice(_gen(data), MAX_ITER)
     return _gen(data)
 
 
